@@ -550,10 +550,10 @@ def oracle(line, out):
                 "svhost": "simple-vhost document root is not server-root + host + document-root",
                 "evhost": "evhost document root differs from the documented pattern expansion"}[op]
         detail = ""
-        if op in ("app", "subst", "proc") and b"decb64u" in line_template(line) or \
-                (op == "app" and int(line.split(" ")[1]) & F_DEC64):
+        tm = line_template(line)
+        if b"decb64u" in tm or (op == "app" and int(line.split(" ")[1]) & F_DEC64):
             detail = " (decb64u)"
-        if op in ("subst", "proc", "rw", "redir") and b"toupper" in line_template(line):
+        if b"toupper" in tm:
             detail = " (toupper)"
         return "%s: %s%s" % (op, what, detail)
     return None
